@@ -1,9 +1,5 @@
-//go:build verif_raftkvs
-
-// raftkvs.CustomInChan as the reading end of the channel variant. It lives in the module
-// github.com/DistCompiler/pgo/systems/raftkvs, which the harness go.mod does not require yet;
-// once it does (require + replace => /repo/systems/raftkvs), build with -tags verif_raftkvs
-// (or change the constraint above to `verif`) and TestC06Channels draws this reader too.
+// raftkvs.CustomInChan as the reading end of the channel variant: like InputChan, but a
+// time-out yields TRUE instead of aborting the section.
 package c06
 
 import "github.com/DistCompiler/pgo/systems/raftkvs"
